@@ -116,7 +116,11 @@ func (a tokSet) meets(b tokSet) bool {
 
 type ownState struct {
 	p       *core.Program
-	recv    types.Object      // the method's receiver (fields of it outlive the call)
+	recv    types.Object                  // the method's receiver (fields of it outlive the call)
+	summ    map[types.Object]map[int]bool // functions that put the backing array of their i-th (pointer) argument
+	frees   map[int]bool                  // out: indexes of this function's params whose caller-owned array was put
+	params  []types.Object
+	export  bool
 	places  map[string]tokSet // "v:<objptr>" or "*v:<objptr>"
 	freed   tokSet
 	freedAt map[int]token.Pos
@@ -361,8 +365,24 @@ func (s *ownState) step(n ast.Node, fd *ast.FuncDecl, ptrParams []types.Object) 
 					}
 					s.freed[t] = true
 					s.freedAt[t] = call.Pos()
+					s.callerPut(t, call.Pos(), "")
 				}
 				return
+			}
+			// a callee that puts the backing array of one of its pointer arguments
+			if o := s.p.Callee(call); o != nil && s.summ[o] != nil {
+				for ai, a := range call.Args {
+					if !s.summ[o][ai] {
+						continue
+					}
+					if id, ok := ast.Unparen(a).(*ast.Ident); ok {
+						if po := s.p.ObjectOf(id); po != nil {
+							for t := range s.places[placeKey(po, true)] {
+								s.callerPut(t, call.Pos(), o.Name())
+							}
+						}
+					}
+				}
 			}
 		}
 		s.eval(x.X, true)
@@ -379,6 +399,30 @@ func (s *ownState) step(n ast.Node, fd *ast.FuncDecl, ptrParams []types.Object) 
 	case ast.Expr:
 		s.eval(x, true)
 	case *ast.IncDecStmt, *ast.DeferStmt, *ast.GoStmt, *ast.SendStmt:
+	}
+}
+
+// callerPut notes that a token standing for a caller-owned array went into a pool.
+func (s *ownState) callerPut(t int, pos token.Pos, via string) {
+	nm := s.names[t]
+	if !strings.HasPrefix(nm, "the caller's *") {
+		return
+	}
+	pn := strings.TrimPrefix(nm, "the caller's *")
+	for i, po := range s.params {
+		if po != nil && po.Name() == pn {
+			if s.frees == nil {
+				s.frees = map[int]bool{}
+			}
+			s.frees[i] = true
+		}
+	}
+	if s.export {
+		how := "is put into the buffer pool"
+		if via != "" {
+			how = "is handed to " + via + ", which puts it into the buffer pool"
+		}
+		s.viol = append(s.viol, ownViol{"O2", pos, "the backing array behind the caller's `*" + pn + "` " + how + ": a later, unrelated encode on any goroutine may be given this array and overwrite memory the caller still owns"})
 	}
 }
 
@@ -419,71 +463,99 @@ func analyseOwn(p *core.Program) []ownResult {
 		return v.([]ownResult)
 	}
 	var out []ownResult
-	for _, pk := range p.Pkgs {
-		for _, fd := range core.FuncDecls(pk) {
-			if fd.Body == nil {
-				continue
-			}
-			puts := false
-			ast.Inspect(fd.Body, func(n ast.Node) bool {
-				if call, ok := n.(*ast.CallExpr); ok && poolFnOf(p, call, poolPuts) != nil {
-					puts = true
+	summ := map[types.Object]map[int]bool{}
+	for round := 0; round < 3; round++ {
+		out = nil
+		changed := false
+		for _, pk := range p.Pkgs {
+			for _, fd := range core.FuncDecls(pk) {
+				if fd.Body == nil || strings.HasSuffix(p.Fset.Position(fd.Pos()).Filename, "_test.go") {
+					continue
 				}
-				return !puts
-			})
-			if !puts {
-				continue
-			}
-			// the put functions themselves are not clients
-			isPutDef := false
-			for _, pf := range poolPuts {
-				if pf.rel == core.Rel(pk.PkgPath) && pf.name == fd.Name.Name && fd.Recv == nil {
-					isPutDef = true
+				puts := false
+				ast.Inspect(fd.Body, func(n ast.Node) bool {
+					if call, ok := n.(*ast.CallExpr); ok {
+						if poolFnOf(p, call, poolPuts) != nil {
+							puts = true
+						} else if o := p.Callee(call); o != nil && summ[o] != nil {
+							puts = true
+						}
+					}
+					return !puts
+				})
+				if !puts {
+					continue
 				}
-			}
-			if isPutDef {
-				continue
-			}
-			res := ownResult{fn: core.FuncName(pk, fd), pos: fd.Pos()}
-			g := funcCFG(p, fd.Body)
-			paths, ok := cfgPaths(g, 2, 20000)
-			if !ok {
-				res.undec = "too many paths"
-				out = append(out, res)
-				continue
-			}
-			res.paths = len(paths)
-			var ptrParams []types.Object
-			for _, f := range fd.Type.Params.List {
-				if _, isPtr := p.TypeOf(f.Type).(*types.Pointer); isPtr {
+				// the put functions themselves are not clients
+				isPutDef := false
+				for _, pf := range poolPuts {
+					if pf.rel == core.Rel(pk.PkgPath) && pf.name == fd.Name.Name && fd.Recv == nil {
+						isPutDef = true
+					}
+				}
+				if isPutDef {
+					continue
+				}
+				res := ownResult{fn: core.FuncName(pk, fd), pos: fd.Pos()}
+				g := funcCFG(p, fd.Body)
+				paths, ok := cfgPaths(g, 2, 20000)
+				if !ok {
+					res.undec = "too many paths"
+					out = append(out, res)
+					continue
+				}
+				res.paths = len(paths)
+				var ptrParams []types.Object
+				var allParams []types.Object
+				for _, f := range fd.Type.Params.List {
+					_, isPtr := p.TypeOf(f.Type).(*types.Pointer)
 					for _, nm := range f.Names {
-						ptrParams = append(ptrParams, p.ObjectOf(nm))
+						allParams = append(allParams, p.ObjectOf(nm))
+						if isPtr {
+							ptrParams = append(ptrParams, p.ObjectOf(nm))
+						}
 					}
 				}
-			}
-			seen := map[string]bool{}
-			for _, pt := range paths {
-				st := &ownState{p: p, recv: recvObj(p, fd), places: map[string]tokSet{}, freed: tokSet{}, freedAt: map[int]token.Pos{}, names: map[int]string{}}
-				for _, pp := range ptrParams {
-					st.places[placeKey(pp, true)] = st.fresh("the caller's *" + pp.Name())
-				}
-				endsInReturn := false
-				for _, n := range pt {
-					st.step(n, fd, ptrParams)
-					_, endsInReturn = n.(*ast.ReturnStmt)
-				}
-				if !endsInReturn {
-					st.exit(fd.End(), ptrParams)
-				}
-				for _, v := range st.viol {
-					k := v.rule + "|" + p.Pos(v.pos) + "|" + v.msg
-					if !seen[k] {
-						seen[k] = true
-						res.viols = append(res.viols, v)
+				fobj := p.ObjectOf(fd.Name)
+				exported := fd.Name.IsExported()
+				seen := map[string]bool{}
+				for _, pt := range paths {
+					st := &ownState{p: p, recv: recvObj(p, fd), summ: summ, params: allParams, export: exported, places: map[string]tokSet{}, freed: tokSet{}, freedAt: map[int]token.Pos{}, names: map[int]string{}}
+					for _, pp := range ptrParams {
+						st.places[placeKey(pp, true)] = st.fresh("the caller's *" + pp.Name())
+					}
+					endsInReturn := false
+					for _, n := range pt {
+						st.step(n, fd, ptrParams)
+						_, endsInReturn = n.(*ast.ReturnStmt)
+					}
+					if !endsInReturn {
+						st.exit(fd.End(), ptrParams)
+					}
+					for i := range st.frees {
+						if fobj != nil && !exported {
+							if summ[fobj] == nil {
+								summ[fobj] = map[int]bool{}
+							}
+							if !summ[fobj][i] {
+								summ[fobj][i] = true
+								changed = true
+							}
+						}
+					}
+					for _, v := range st.viol {
+						k := v.rule + "|" + p.Pos(v.pos) + "|" + v.msg
+						if !seen[k] {
+							seen[k] = true
+							res.viols = append(res.viols, v)
+						}
 					}
 				}
+				out = append(out, res)
 			}
-			out = append(out, res)
+		}
+		if !changed {
+			break
 		}
 	}
 	sort.Slice(out, func(i, j int) bool { return out[i].fn < out[j].fn })
